@@ -105,7 +105,7 @@ def rand_script(rng, maxlen=4):
             if len(stack) >= 6:
                 continue
             n = rng.choice([1, 7, 8, 16, 24, 100, 1000, 4096])
-            toks.append(f"a{n}")
+            toks.append(f"{rng.choice('aaz')}{n}")      # z: zero-initialised (GlobalAlloc::alloc_zeroed)
             stack.append(n)
         elif k < 0.7:
             toks.append("d")
@@ -211,7 +211,7 @@ def rand_kept_scripts(rng):
 
 E2E_BENCHES = ["rust_abi", "extern_c", "extern_system", "generic_extern_c::u8", "generic_extern_c::String",
                "generic_rust::u8", "with_arg::1", "with_arg::2", "bencher_plain", "bencher_extern_c",
-               "bencher_arg::1", "bencher_arg::2"]
+               "bencher_arg::1", "bencher_arg::2", "key_arg::Key(1)", "key_arg::Key(2)", "key_ref_arg::Key(1)"]
 
 
 def e2e_cases(rng, tier):
